@@ -248,7 +248,8 @@ class GMRES:
                 # The residual is just the last element of $\beta$ vector (see Wikipedia) since $y$ is found exactly.
                 error = np.abs(self.e1[k + 1]) / self.b_norm
                 self.total_error[-1].append(error)
-                if error < self.res and k >= self.N_min:
+                # (an exactly vanishing residual means the Krylov space is exhausted: continuing would divide 0/0)
+                if error < self.res and (k >= self.N_min or error <= np.finfo(float).eps * self.total_error[-1][0]):
                     converged = True
                     break
             self.total_iters.append(k + 1)
